@@ -126,8 +126,11 @@ class _ParsedTB(object):
         if tb_lines[0].strip() == 'Traceback (most recent call last):':
             frame_lines = tb_lines[1:-1]
             frame_re = _frame_re
-        elif len(tb_lines) > 1 and tb_lines[-2].lstrip().startswith('^'):
-            frame_lines = tb_lines[:-2]
+        elif ((len(tb_lines) > 1 and tb_lines[-2].lstrip().startswith('^'))
+              or _se_frame_re.match(tb_lines[0].strip())):
+            # bare SyntaxError report; newer Pythons omit the caret
+            # line for some of them (e.g., IndentationError)
+            frame_lines = tb_lines[:-1]
             frame_re = _se_frame_re
         else:
             raise ValueError('unrecognized traceback string format')
@@ -146,14 +149,18 @@ class _ParsedTB(object):
                 break
 
         frames = []
-        for pair_idx in range(0, len(frame_lines), 2):
-            frame_line = frame_lines[pair_idx].strip()
-            frame_match = frame_re.match(frame_line)
-            if frame_match:
-                frame_dict = frame_match.groupdict()
-            else:
-                continue
-            frame_dict['source_line'] = frame_lines[pair_idx + 1].strip()
+        for idx, frame_line in enumerate(frame_lines):
+            frame_match = frame_re.match(frame_line.strip())
+            if not frame_match:
+                continue  # source lines, caret/underline markers, etc.
+            frame_dict = frame_match.groupdict()
+            # the source line is omitted when the source is unavailable
+            next_line = ''
+            if idx + 1 < len(frame_lines):
+                next_line = frame_lines[idx + 1].strip()
+            if frame_re.match(next_line):
+                next_line = ''
+            frame_dict['source_line'] = next_line
             frames.append(frame_dict)
 
         return cls(exc_type, exc_msg, frames)
